@@ -659,21 +659,31 @@ def lanes(constructions, food, uc, rep):
                   "nutrient lanes cross: " + "; ".join(bad), loc=loc(FOOD if not c.method.startswith("UnitConversions") else UC, c.call),
                   detail=where)
     # label transformers of UnitConversions (get_units_from_list_to_total, ...): label k of the result is computed from label k only
+    # (found by what they do - a triple each of whose entries is computed from the labels - wherever it is written: returned by a getter,
+    #  or, after the getter was merged into its only caller, assigned there)
+    n_transformers = 0
     for name, fn in uc.items():
-        rets = [r for r in walk_no_nested(fn) if isinstance(r, ast.Return) and isinstance(r.value, (ast.List, ast.Tuple)) and len(r.value.elts) == 3]
-        if not (name.startswith("get_units") and rets):
-            continue
         defs = local_defs(fn)
         params = {a.arg for a in fn.args.args}
+        triples = []
+        for t_ in walk_no_nested(fn):
+            if isinstance(t_, (ast.List, ast.Tuple)) and len(t_.elts) == 3 and isinstance(t_.ctx, ast.Load):
+                used3 = [{a for _, a in attrs_used(closure_exprs(e, defs, params), LABELS)} for e in t_.elts]
+                if all(used3):
+                    triples.append((t_, used3))
+        if not triples:
+            continue
+        n_transformers += 1
         bad = []
-        for r in rets:
-            for k, e in enumerate(r.value.elts):
-                usedl = {a for _, a in attrs_used(closure_exprs(e, defs, params), LABELS)}
+        for t_, used3 in triples:
+            for k, usedl in enumerate(used3):
                 if usedl - {LABELS[k]}:
                     bad.append(f"label {k} ({LABELS[k]}) is computed from {sorted(usedl - {LABELS[k]})}")
         rep.check(not bad, rule, f"UnitConversions.{name}: label k from label k",
                   "the three unit labels are not transformed independently: " + "; ".join(bad) + " (correct only while the three labels happen to "
                   "have the same length / shape)", loc=loc(UC, fn))
+    if n_transformers < 3:
+        raise AnalysisError(f"label transformers of UnitConversions: {n_transformers} found, 3 confirmed by hand (list->total, list->element, element->list)")
     # operations that build their result through a constructing helper of the class: the helper's construction (judged above) is theirs
     constructing = {c.method for c in constructions}
     for name, fn in food.items():
